@@ -310,7 +310,7 @@ func genPacValue(r *rng.R) string {
 	case 2:
 		return "DIRECT"
 	default:
-		kw := r.Pick([]string{"PROXY", "PROXY", "HTTP", "HTTPS", "SOCKS5", "SOCKS", "SOCKS4", "FOO", "DIRECT"})
+		kw := r.Pick([]string{"PROXY", "PROXY", "PROXY", "HTTP", "HTTP", "HTTPS", "HTTPS", "HTTPS", "SOCKS5", "SOCKS5", "SOCKS5", "SOCKS", "SOCKS4", "FOO", "DIRECT"})
 		s := kw + " " + r.Pick(proxyHostPorts)
 		if r.Chance(1, 3) {
 			s += "; " + r.Pick([]string{"DIRECT", "PROXY pb.test:8443", "SOCKS5 pa.test:80"})
@@ -481,18 +481,18 @@ func fCase(r *rig, kind int, scheme, urlhost string) (string, string) {
 		coqCfgd(r.desc, pacRes, directRes, isLH), kind, cs(scheme), cs(urlhost), coqPresult(out)), out
 }
 
+type reqSpec struct {
+	Kind    int    `json:"kind"` // 0 plain http, 1 CONNECT + inner, 2 https absolute-form, 3 inside a MITM'd tunnel
+	URLHost string `json:"urlhost"`
+}
+
+// eJSON is one client session against one configuration.
 type eJSON struct {
-	Kind       string   `json:"kind"`
-	Cfg        cfgDesc  `json:"cfg"`
-	Host       string   `json:"host"`
-	Port       string   `json:"port"`
-	PlainHost  string   `json:"plain_urlhost"`
-	Plain      *obsJSON `json:"plain_observed,omitempty"`
-	Connect    *obsJSON `json:"connect_observed,omitempty"`
-	TLS        *obsJSON `json:"https_observed,omitempty"`
-	Mitm       *obsJSON `json:"mitm_observed,omitempty"`
-	SkipPlain  bool     `json:"skip_plain,omitempty"`
-	SkipConn   bool     `json:"skip_connect,omitempty"`
+	Kind     string    `json:"kind"`
+	Cfg      cfgDesc   `json:"cfg"`
+	SameConn bool      `json:"same_conn"`
+	Reqs     []reqSpec `json:"requests"`
+	Obs      []obsJSON `json:"observed,omitempty"`
 }
 
 func coqObs(o obsJSON, hostname string) string {
@@ -512,42 +512,48 @@ func coqObs(o obsJSON, hostname string) string {
 	return fmt.Sprintf("{| o_dials := %s; o_recv := %s; o_ok := %s |}", coqfmt.StrList(dials), recv, coqfmt.Bool(o.OK))
 }
 
-// eCase returns "" when the request would be refused by the access control (mode deny, local host: C04),
-// which is not a routing case.
+// eCase runs a session; requests that would be refused by the access control (mode deny, local host: C04) are
+// not routing cases and are left out.  Returns "" if nothing is left.
 func eCase(r *rig, j *eJSON) string {
-	connHost := net.JoinHostPort(strings.Trim(j.Host, "[]"), j.Port)
-	if r.desc.Mode == "deny" && r.hp.VerifC05IsLocalhost((&url.URL{Host: connHost}).Hostname()) {
-		return ""
-	}
-	part := func(reqKind, tgtKind int, scheme, urlhost string) (string, *obsJSON) {
-		o := r.request(reqKind, scheme, urlhost)
-		tscheme := scheme
-		if reqKind == 3 {
-			tscheme = "https" // inside the MITM'd TLS session the proxy gives the request the https scheme
+	sess := &session{r: r, sameConn: j.SameConn}
+	defer sess.close()
+	var parts []string
+	var kept []reqSpec
+	j.Obs = nil
+	for _, q := range j.Reqs {
+		hostname := (&url.URL{Host: q.URLHost}).Hostname()
+		if r.desc.Mode == "deny" && r.hp.VerifC05IsLocalhost(hostname) {
+			continue
 		}
-		pacRes, directRes, isLH, hostname := r.oracles(tgtKind, tscheme, urlhost, o.Pac)
-		return fmt.Sprintf("(Some (%s, tgt %d %s %s, %s))", coqCfgd(r.desc, pacRes, directRes, isLH),
-			tgtKind, cs(tscheme), cs(urlhost), coqObs(o, hostname)), &o
+		if q.Kind == 3 && !r.desc.MITM || q.Kind == 1 && r.desc.MITM {
+			continue
+		}
+		scheme, tgtKind, tscheme := "http", 0, "http"
+		switch q.Kind {
+		case 1:
+			scheme, tgtKind, tscheme = "", 1, ""
+		case 2:
+			scheme, tscheme = "https", "https"
+		case 3:
+			scheme, tscheme = "", "https" // inside the MITM'd TLS session the proxy gives the request the https scheme
+		}
+		o := sess.request(q.Kind, scheme, q.URLHost)
+		pacRes, directRes, isLH, hn := r.oracles(tgtKind, tscheme, q.URLHost, o.Pac)
+		parts = append(parts, fmt.Sprintf("(%s, tgt %d %s %s, %s)", coqCfgd(r.desc, pacRes, directRes, isLH),
+			tgtKind, cs(tscheme), cs(q.URLHost), coqObs(o, hn)))
+		kept = append(kept, q)
+		j.Obs = append(j.Obs, o)
 	}
-	plain, conn, tlsS, mitm := "None", "None", "None", "None"
-	if !j.SkipPlain {
-		plain, j.Plain = part(0, 0, "http", j.PlainHost)
-	}
-	if !j.SkipConn && !r.desc.MITM {
-		conn, j.Connect = part(1, 1, "", connHost)
-	}
-	if !j.SkipPlain {
-		tlsS, j.TLS = part(2, 0, "https", connHost)
-	}
-	if r.desc.MITM {
-		mitm, j.Mitm = part(3, 0, "", connHost)
+	j.Reqs = kept
+	if len(parts) == 0 {
+		return ""
 	}
 	att := r.desc.Attempts
 	if att < 0 {
 		att = 0 // the model's attempts is a nat; <= 0 means one attempt in both
 	}
-	return fmt.Sprintf("{| ec_rules := %s; ec_attempts := %d%%nat; ec_failures := %d%%nat; ec_plain := %s; ec_connect := %s; ec_tls := %s; ec_mitm := %s |}",
-		coqRules(r.rules), att, r.desc.FailFirst, plain, conn, tlsS, mitm)
+	return fmt.Sprintf("{| ec_rules := %s; ec_attempts := %d%%nat; ec_failures := %d%%nat; ec_parts := %s |}",
+		coqRules(r.rules), att, r.desc.FailFirst, coqfmt.List("(cfgd * target * obs)", parts))
 }
 
 // ---------------------------------------------------------------- shards
@@ -807,32 +813,61 @@ func runJob(w *world, jb job) jobResult {
 	return res
 }
 
-func genTargets(r *rng.R, d *cfgDesc, e2e bool) (fs []fJSON, es []eJSON) {
-	n := 3
+func hostPort(h, port string) string { return net.JoinHostPort(strings.Trim(h, "[]"), port) }
+
+// genSession: 3..6 requests over the party hosts; about half of the sessions exercise ONE host with every
+// request kind (so that the plain/CONNECT agreement is checked), the others mix hosts.
+func genSession(r *rng.R, d *cfgDesc) eJSON {
+	e := eJSON{Kind: "e2e", Cfg: *d, SameConn: r.Chance(1, 2)}
+	oneHost := r.Chance(1, 2)
+	h := r.Pick(partyHosts)
+	port := r.Pick([]string{"80", "80", "8080", "443"})
+	n := 3 + r.Intn(4)
+	var reqs []reqSpec
 	for i := 0; i < n; i++ {
+		if !oneHost {
+			h = r.Pick(partyHosts)
+			port = r.Pick([]string{"80", "80", "8080", "443"})
+		}
+		k := r.Pick([]string{"0", "0", "2", "3", "1"})
+		q := reqSpec{Kind: int(k[0] - '0'), URLHost: hostPort(h, port)}
+		if q.Kind == 0 && port == "80" && r.Chance(1, 2) {
+			q.URLHost = h
+		}
+		reqs = append(reqs, q)
+	}
+	if oneHost {
+		reqs = append(reqs, reqSpec{Kind: 0, URLHost: hostPort(h, port)}, reqSpec{Kind: 1, URLHost: hostPort(h, port)})
+	}
+	if e.SameConn { // a CONNECT tunnel ends the connection: keep CONNECTs at the end
+		var a, c []reqSpec
+		for _, q := range reqs {
+			if q.Kind == 1 {
+				c = append(c, q)
+			} else {
+				a = append(a, q)
+			}
+		}
+		reqs = append(a, c...)
+	}
+	e.Reqs = reqs
+	return e
+}
+
+func genTargets(r *rng.R, d *cfgDesc) (fs []fJSON) {
+	for i := 0; i < 3; i++ {
 		h := r.Pick(partyHosts)
 		port := r.Pick([]string{"80", "80", "8080", "443"})
-		if e2e {
-			if d.Mode == "deny" && isLocalish(h) {
-				continue // refused by the access control (C04), not a routing case
+		kind := r.Intn(2)
+		scheme := ""
+		uh := hostPort(h, port)
+		if kind == 0 {
+			scheme = r.Pick([]string{"http", "http", "https"})
+			if r.Chance(1, 2) {
+				uh = h
 			}
-			ph := net.JoinHostPort(strings.Trim(h, "[]"), port)
-			if port == "80" && r.Chance(1, 2) {
-				ph = h
-			}
-			es = append(es, eJSON{Kind: "e2e", Cfg: *d, Host: h, Port: port, PlainHost: ph})
-		} else {
-			kind := r.Intn(2)
-			scheme := ""
-			uh := net.JoinHostPort(strings.Trim(h, "[]"), port)
-			if kind == 0 {
-				scheme = r.Pick([]string{"http", "http", "https"})
-				if r.Chance(1, 2) {
-					uh = h
-				}
-			}
-			fs = append(fs, fJSON{Kind: "func", Cfg: *d, ReqKind: kind, Scheme: scheme, URLHost: uh})
 		}
+		fs = append(fs, fJSON{Kind: "func", Cfg: *d, ReqKind: kind, Scheme: scheme, URLHost: uh})
 	}
 	return
 }
@@ -872,17 +907,22 @@ func runConfigs(r *rng.R, nF, nE int, ss *shardSet, m *meta) {
 			d.FailFirst = 1
 		}
 		jb := job{idx: len(jobs), desc: d}
-		for _, h := range []string{"origin.test", "other.test", "localhost"} {
-			jb.e = append(jb.e, eJSON{Kind: "e2e", Cfg: d, Host: h, Port: "80", PlainHost: h})
+		for si, h := range []string{"origin.test", "other.test", "localhost"} {
+			jb.e = append(jb.e, eJSON{Kind: "e2e", Cfg: d, SameConn: (i+si)%2 == 0, Reqs: []reqSpec{
+				{Kind: 0, URLHost: h}, {Kind: 2, URLHost: h + ":80"}, {Kind: 3, URLHost: h + ":80"}, {Kind: 0, URLHost: h + ":80"}, {Kind: 1, URLHost: h + ":80"}}})
 			jb.f = append(jb.f, fJSON{Kind: "func", Cfg: d, ReqKind: 0, Scheme: "http", URLHost: h},
 				fJSON{Kind: "func", Cfg: d, ReqKind: 1, Scheme: "", URLHost: h + ":443"})
 		}
+		// one session across the three hosts on one connection
+		jb.e = append(jb.e, eJSON{Kind: "e2e", Cfg: d, SameConn: true, Reqs: []reqSpec{
+			{Kind: 0, URLHost: "origin.test"}, {Kind: 0, URLHost: "other.test"}, {Kind: 2, URLHost: "localhost:443"},
+			{Kind: 3, URLHost: "origin.test:443"}, {Kind: 3, URLHost: "other.test:443"}, {Kind: 0, URLHost: "origin.test:8080"}, {Kind: 1, URLHost: "other.test:80"}}})
 		jobs = append(jobs, jb)
 	}
 	nf, ne := 0, 0
 	for nf < nF {
 		d := genConfig(r, false)
-		fs, _ := genTargets(r, &d, false)
+		fs := genTargets(r, &d)
 		jobs = append(jobs, job{idx: len(jobs), desc: d, f: fs})
 		nf += len(fs)
 	}
@@ -890,17 +930,14 @@ func runConfigs(r *rng.R, nF, nE int, ss *shardSet, m *meta) {
 		d := genConfig(r, true)
 		hosts := append([]string{}, "origin.test", "other.test", "pa.test", "pb.test", "localhost")
 		d.Rules = genRulesFor(r, hosts, []string{"80", "8080", "443", "3128", "8443"})
-		d.MITM = r.Chance(1, 5)
+		d.MITM = r.Chance(1, 4)
 		d.Attempts = r.Intn(4) // 0 (= 1), 1, 2, 3
-		if r.Chance(1, 3) {
+		if r.Chance(1, 4) {
 			d.FailFirst = 1 + r.Intn(3)
 		}
-		_, es := genTargets(r, &d, true)
-		for i := range es {
-			es[i].Cfg = d
-		}
+		es := []eJSON{genSession(r, &d), genSession(r, &d)}
 		jobs = append(jobs, job{idx: len(jobs), desc: d, e: es})
-		ne += len(es)
+		ne += len(es[0].Reqs) + len(es[1].Reqs)
 	}
 	results := make([]jobResult, len(jobs))
 	ch := make(chan job)
@@ -947,12 +984,17 @@ func runConfigs(r *rng.R, nF, nE int, ss *shardSet, m *meta) {
 	}
 	for _, j := range ej {
 		e := j.(eJSON)
+		m.Dist["e2e_sessions"]++
+		if e.SameConn {
+			m.Dist["e2e_sessions_on_one_connection"]++
+		}
 		if e.Cfg.MITM {
 			m.Dist["e2e_cfg_mitm"]++
 		}
-		for _, o := range []*obsJSON{e.Plain, e.Connect, e.TLS, e.Mitm} {
-			if o == nil {
-				continue
+		for i, o := range e.Obs {
+			m.Dist[fmt.Sprintf("e2e_request_kind_%d", e.Reqs[i].Kind)]++
+			if o.Reopened {
+				m.Dist["e2e_reopened_connection"]++
 			}
 			switch {
 			case len(o.Recv) == 0:
@@ -1049,7 +1091,7 @@ func doReplay(path string, ss *shardSet, m *meta) {
 	case "e2e":
 		var j eJSON
 		json.Unmarshal(data, &j)
-		j.Plain, j.Connect, j.TLS, j.Mitm = nil, nil, nil, nil
+		j.Obs = nil
 		w := newWorld()
 		defer w.close()
 		res := runJob(w, job{desc: j.Cfg, e: []eJSON{j}})
